@@ -90,10 +90,13 @@ def prec(p):
     f = f"{SRC}/{g}.c"
     include(f, inc_after)
     ins(f, "    if ( *info ) return;\n\n    /* Start timing factorization. */\n",
+        "    SLU_VERIF_EVL(\"Etree\", -1, superlumt_options->etree, A->ncol, A->ncol);\n"
+        "    SLU_VERIF_EVL(\"SuperBnd\", -1, superlumt_options->part_super_h, A->ncol, A->ncol);\n"
         "    SLU_VERIF_EVL(\"Create\", -1, pxgstrf_shared.Glu->map_in_sup, A->ncol + 1,\n"
         "\t\t  nprocs, A->ncol, pxgstrf_shared.Glu->nzlumax,\n"
         "\t\t  pxgstrf_shared.Glu->dynamic_snode_bound,\n"
-        "\t\t  pxgstrf_shared.Glu->nextlu);\n", "after")
+        "\t\t  pxgstrf_shared.Glu->nextlu, superlumt_options->panel_size,\n"
+        "\t\t  superlumt_options->relax, sp_ienv(3));\n", "after")
     ins(f, "    wtime = SuperLU_timer_() - wtime;\n    usrtime = usertimer_() - usrtime;\n",
         "    SLU_VERIF_EV(\"JoinAll\", -1, nprocs);\n")
     f = f"{SRC}/{g}_thread_finalize.c"
